@@ -38,7 +38,8 @@ FLOORS = {"c06.cases": 40, "c06.histories": 200, "c06.dump.compares": 200, "c06.
           "c06.merge.with_deletions": 80, "c06.final.multisegment": 60, "c06.final.with_deletions": 15,
           "c06.stats.compares": 150, "c06.score.compares": 4000, "c06.probe.compares": 6000,
           "c06.optimize.checks": 60, "c06.optimize.removed_field_checks": 30, "c06.group.checks": 1500,
-          "c06.nested.checks": 200, "c06.pop.A": 25, "c06.pop.B": 8}
+          "c06.nested.checks": 200, "c06.pop.A": 25, "c06.pop.B": 8,
+          "c06.frontend.buffered": 40, "c06.frontend.mp": 10, "c06.frontend.mp-multi": 10}
 
 VOC = ["alfa", "bravo", "charlie", "delta", "echo", "foxtrot", "golf", "hotel", "india", "juliet", "kilo", "lima",
        "mike", "november", "oscar", "papa", "quebec", "romeo", "sierra", "tango", "uniform", "victor", "whiskey",
@@ -396,8 +397,9 @@ def run_history(ctx, st, schema, commits, info):
         now, first = seg_map(ix)
         for k, sid in now.items():
             if k in fresh:
-                # BufferedWriter and the merging MpWriter copy even new documents through write_per_doc()
-                if fe in ("buffered", "mp"):
+                # the merging MpWriter copies even new documents through write_per_doc() from an on-disk sub-segment
+                # (one-byte lengths); BufferedWriter copies them from the memory codec, which keeps exact lengths
+                if fe == "mp":
                     info["rewritten"].add(k)
                 else:
                     info["rewritten"].discard(k)
